@@ -381,6 +381,16 @@ class Gen:
         spec = {'resources': self.resources, 'items': self.items, 'horizon': segs,
                 'tie': 'prng', 'seed': seed, 'max_events': p['max_events']}
         spec['script'] = self.script(horizon, maint)
+        if len(segs) >= 2 and self.rand_op is not None and rng.random() < p.get('p_between', 0.6):
+            # operations issued by ordinary code BETWEEN two simulate() calls (not from an event)
+            spec['between'] = []
+            for _ in range(len(segs) - 1):
+                gap = []
+                for _ in range(rng.choice([1, 1, 2, 3])):
+                    e = self.rand_op(None)
+                    if e is not None:
+                        gap.append(e)
+                spec['between'].append(gap)
         if rng.random() < p['p_poke']:
             cands = [i['id'] for i in self.items if i['kind'] not in ('group',)]
             spec['poke'] = rng.sample(cands, min(len(cands), rng.choice([1, 2, 3])))
@@ -421,15 +431,8 @@ class Gen:
             if c == 0:
                 ops.append({'t': grid_time(rng, horizon / 3.0), 'prio': rng.choice(PRIOS), 'op': 'add_capacity',
                             'res': r, 'amount': rng.choice([1, 2, 3])})
-        last_t = None
-        for _ in range(n_ops):
-            if not w:
-                break
+        def rand_op(t):
             op = wchoice(rng, w)
-            t = grid_time(rng, horizon)
-            if last_t is not None and rng.random() < p['p_same_instant']:
-                t = last_t
-            last_t = t
             e = {'t': t, 'prio': rng.choice(PRIOS), 'op': op}
             if op in ('fail', 'shutdown', 'restore'):
                 e['target'] = rng.choice(procs)
@@ -456,10 +459,22 @@ class Gen:
                 if self.order[a] > self.order[b]:
                     a, b = b, a
                 if next(i for i in self.items if i['id'] == a)['kind'] == 'sink':
-                    continue
+                    return None
                 e['target'] = b           # b gets a as an additional upstream
                 e['new_up'] = a
-            ops.append(e)
+            return e
+        self.rand_op = rand_op if w else None
+        last_t = None
+        for _ in range(n_ops):
+            if not w:
+                break
+            t = grid_time(rng, horizon)
+            if last_t is not None and rng.random() < p['p_same_instant']:
+                t = last_t
+            last_t = t
+            e = rand_op(t)
+            if e is not None:
+                ops.append(e)
         # a failure requested while the machine is already shut down for maintenance (a FAIL event scheduled
         # earlier would have been paused with the machine's other events)
         for e in list(ops):
